@@ -25,7 +25,7 @@ func init() {
 			"on error / unknown-dedicated results.",
 		NotCovered: "parsing of identifiers from TLS server names, URL paths, userinfo and EDNS options (string work); " +
 			"the profile database's own lookups (C14); the password-hash comparison itself.",
-		Rules: map[string]string{"C03-R24": "a restart from the file cache keeps the cache's own sync point as the time of the last full synchronisation (table shared with C14-R8), and a file of another layout version is not loaded (shared with C14-R5): a deleted profile or a changed authentication policy is not served from an outdated snapshot for a whole full-sync interval", "C03-R23": "dnssvc.newDeviceFinder: a server of a group with profiles switched off gets the empty device finder, whatever else is configured (no device is recognised there); a group with profiles gets the default finder built with that server, the profile database and the device domains", "C03-R22": "the identifier validators: ValidateInclusion rejects exactly the lengths outside [min, max]; NewDeviceID accepts a string only after the length check against (MaxDeviceIDLen, MinDeviceIDLen) and the host-name-label check, and returns that very string", "C03-R21": "an identifier taken from a request (EDNS option, DoH path, TLS server name) reaches its validator as it was received: not cut to size by a copy into a fixed-size buffer, and not case-folded first (Unicode folding maps U+212A KELVIN SIGN onto k), either of which makes a string that is not the identifier pass as it", "C03-R19": "every Unpack on the receive paths is bounded by the bytes read for this message (shared with C06-R1)", "C03-R20": "backendpb.dohPasswordToInternal: AllowAuthenticator only for an absent hash; a present hash, even an empty one, becomes a bcrypt authenticator", "C03-R18": "Default.Refresh stores the backend's sync time with the file cache; a restart then fetches every deletion and detachment made since (table shared with C14-R8)", "C03-R17": "every backend update that converts reaches the profile database, so deletions and detached devices take effect (shared with C14-R16)", "C03-R16": "CreateAutoDevice asks the storage only for an existing profile with automatic devices enabled", "C03-RC": "class rules (error chains, shadowed results, character classes, crossed arguments, pool constructors, array pools, loop completeness, loop-carried buffers, replacing setters, complete clones, Grow arithmetic, pooled-buffer escape, sorted searches, fresh decode targets, per-iteration objects, whole-message copies, codec guards) over the packages this property rests on", "C03-R15": "matchDomain: lower-cased name, the library's immediate-subdomain test against every device domain, first match wins", "C03-R14": "auth settings are dropped by the file-cache codec only when absent or disabled; setProfiles stores deleted profiles over the live record (shared rules)", "C03-R13": "per-element objects built in conversion loops (server groups, devices) take no slice accumulated over earlier elements",
+		Rules: map[string]string{"C03-R25": "the profile database's sync point is written only after a successful fetch and when a file cache is loaded (frozen writer table): a failed full sync does not lose it, so the next partial sync does not skip the profiles deleted meanwhile", "C03-R24": "a restart from the file cache keeps the cache's own sync point as the time of the last full synchronisation (table shared with C14-R8), and a file of another layout version is not loaded (shared with C14-R5): a deleted profile or a changed authentication policy is not served from an outdated snapshot for a whole full-sync interval", "C03-R23": "dnssvc.newDeviceFinder: a server of a group with profiles switched off gets the empty device finder, whatever else is configured (no device is recognised there); a group with profiles gets the default finder built with that server, the profile database and the device domains", "C03-R22": "the identifier validators: ValidateInclusion rejects exactly the lengths outside [min, max]; NewDeviceID accepts a string only after the length check against (MaxDeviceIDLen, MinDeviceIDLen) and the host-name-label check, and returns that very string", "C03-R21": "an identifier taken from a request (EDNS option, DoH path, TLS server name) reaches its validator as it was received: not cut to size by a copy into a fixed-size buffer, and not case-folded first (Unicode folding maps U+212A KELVIN SIGN onto k), either of which makes a string that is not the identifier pass as it", "C03-R19": "every Unpack on the receive paths is bounded by the bytes read for this message (shared with C06-R1)", "C03-R20": "backendpb.dohPasswordToInternal: AllowAuthenticator only for an absent hash; a present hash, even an empty one, becomes a bcrypt authenticator", "C03-R18": "Default.Refresh stores the backend's sync time with the file cache; a restart then fetches every deletion and detachment made since (table shared with C14-R8)", "C03-R17": "every backend update that converts reaches the profile database, so deletions and detached devices take effect (shared with C14-R16)", "C03-R16": "CreateAutoDevice asks the storage only for an existing profile with automatic devices enabled", "C03-RC": "class rules (error chains, shadowed results, character classes, crossed arguments, pool constructors, array pools, loop completeness, loop-carried buffers, replacing setters, complete clones, Grow arithmetic, pooled-buffer escape, sorted searches, fresh decode targets, per-iteration objects, whole-message copies, codec guards) over the packages this property rests on", "C03-R15": "matchDomain: lower-cased name, the library's immediate-subdomain test against every device domain, first match wins", "C03-R14": "auth settings are dropped by the file-cache codec only when absent or disabled; setProfiles stores deleted profiles over the live record (shared rules)", "C03-R13": "per-element objects built in conversion loops (server groups, devices) take no slice accumulated over earlier elements",
 			"C03-R1":  "decision tree of Find equals the reference (channel precedence, deleted profile, authentication table)",
 			"C03-R2":  "supportsDeviceID table",
 			"C03-R3":  "who may construct *agd.DeviceResultOK",
@@ -46,6 +46,8 @@ func init() {
 const dfPkg = "dnssvc/internal/devicefinder."
 
 func runC03(c *an.Ctx) {
+	c.Floor("C03-R25", 2)
+	c03SyncTimeWriters(c, "C03-R25")
 	// ---- R24: the file cache is trusted only as far as it goes (shared with C14-R8 and C14-R5)
 	c.Floor("C03-R24", 2)
 	c.Borrow("C03-R24", runC14, func(o an.Obligation) bool {
